@@ -323,9 +323,29 @@ type c10Case struct {
 	Model   c10Vals         `json:"model"` // model value when Dest != Model
 	Map     [][]interface{} `json:"map"`   // [key, value] pairs for map paths (value nil allowed); for create_maps: one per row in MapRows
 	MapRows [][][]interface{} `json:"map_rows"`
+	Dto     *c10Sch           `json:"dto,omitempty"` // upd_dto: the updating value is of this (different) struct type
 }
 
-var c10Paths = []string{"upd_struct", "upd_struct", "upd_self", "updcols_struct", "upd_map", "upd_map", "update1", "updcol1", "updcols_map",
+// c10DtoOf: same fields, permission tags re-drawn (a DTO type used as `Model(&m).Updates(dto)`)
+func c10DtoOf(rng *rand.Rand, s c10Sch) *c10Sch {
+	d := c10Sch{}
+	for i, f := range s.Fields {
+		if i > 0 && rng.Intn(2) == 0 {
+			keep := []string{}
+			for _, p := range strings.Split(f.Tag, ";") {
+				if p != "" && !strings.HasPrefix(p, "-") && !strings.HasPrefix(p, "<-") {
+					keep = append(keep, p)
+				}
+			}
+			perm := []string{"", "<-:create", "<-:false", "->", "<-:update", "<-"}[rng.Intn(6)]
+			f.Tag = c10Join(append([]string{perm}, keep...)...)
+		}
+		d.Fields = append(d.Fields, f)
+	}
+	return &d
+}
+
+var c10Paths = []string{"upd_dto", "upd_dto", "upd_struct", "upd_struct", "upd_self", "updcols_struct", "upd_map", "upd_map", "update1", "updcol1", "updcols_map",
 	"save", "save", "create", "create_slice", "create_map", "create_maps", "upsert_all", "save_slice", "upsert_slice"}
 
 type c10Obs struct {
@@ -393,6 +413,8 @@ func c10Exec(db *gorm.DB, typ reflect.Type, c *c10Case, extra func(*gorm.DB) *go
 	switch c.Path {
 	case "upd_struct":
 		return tx.Model(model()).Updates(row(0).Elem().Interface())
+	case "upd_dto":
+		return tx.Model(model()).Updates(c10Build(c.Dto.Type(), *c.Dto, c.Rows[0]).Elem().Interface())
 	case "upd_self":
 		p := row(0).Interface()
 		return tx.Model(p).Updates(p)
@@ -508,6 +530,12 @@ func c10LeanOps(exp map[string]interface{}, c *c10Case) [][]interface{} {
 		om = []string{}
 	}
 	switch c.Path {
+	case "upd_dto":
+		dsch, _, err := c10Parse(c10OpenDry(), *c.Dto)
+		if err != nil {
+			panic(err)
+		}
+		return [][]interface{}{{"c10.updstruct", exp, c10Export(dsch), sel, om, false, false, rows[0], c10NZ(c.Model)}}
 	case "upd_struct":
 		return [][]interface{}{{"c10.updstruct", exp, exp, sel, om, false, false, rows[0], c10NZ(c.Model)}}
 	case "upd_self":
@@ -563,7 +591,7 @@ func c10Expected(c *c10Case, outs []json.RawMessage) (c10Obs, string) {
 	}
 	branch := c.Path
 	switch c.Path {
-	case "upd_struct", "upd_self", "updcols_struct":
+	case "upd_struct", "upd_self", "updcols_struct", "upd_dto":
 		p := pair(outs[0])
 		o.Set, o.Where = strs(p[0]), strs(p[1])
 		if len(o.Set) > 0 {
@@ -711,7 +739,13 @@ func genC10Case(rng *rand.Rand, db *gorm.DB, wild bool, r *Result) (*c10Case, *s
 			mpk = 0
 		}
 		c.Model = c10GenVals(rng, s, mpk, 0, 0)
-		if c.Path == "upd_struct" && rng.Intn(3) > 0 {
+		if c.Path == "upd_dto" {
+			c.Dto = c10DtoOf(rng, s)
+			if _, _, err := c10Parse(db, *c.Dto); err != nil {
+				c.Path, c.Dto = "upd_struct", nil
+			}
+		}
+		if (c.Path == "upd_struct" || c.Path == "upd_dto") && rng.Intn(3) > 0 {
 			delete(c.Rows[0], s.Fields[0].Name)
 		}
 		single := c.Path == "update1" || c.Path == "updcol1"
